@@ -7,15 +7,15 @@ FAMS = {
     # pid: (MC module, actions that must be taken, trace module, generator family, component label)
     "C17": ("MC_Osc", ["StepOsc", "StepNoise"], "Trace_Osc", "osc", "osc"),
     "C18": ("MC_Sinc", ["Push", "Reset", "Conv"], "Trace_Sinc", "sinc", "sinc"),
-    "C20": ("MC_Window", ["NextChunk"], "Trace_Window", "window", "window"),
+    "C20": ("MC_Window", ["NextChunk", "NthChunk"], "Trace_Window", "window", "window"),
 }
 MC_CONSTANTS = {
     "C17": {"quick": {"rates": [1, 2, 4, 8, 16], "hz": "0..40 per frame, histories of any length (VIEW)", "stimulus_frames": 24},
             "thorough": {"rates": [1, 2, 4, 8, 16], "hz": "0..40 per frame, histories of any length (VIEW)", "stimulus_frames": 64}},
     "C18": {"quick": {"depth": "1..3", "history": "3*depth+2", "resets": 2},
             "thorough": {"depth": "1..4", "history": "3*depth+2", "resets": 3}},
-    "C20": {"quick": {"L": "0..10", "b": "2..5", "h": "1..12"},
-            "thorough": {"L": "0..12", "b": "2..6", "h": "1..14"}},
+    "C20": {"quick": {"L": "0..10", "b": "2..5", "h": "1..12", "nth": "0..3"},
+            "thorough": {"L": "0..12", "b": "2..6", "h": "1..14", "nth": "0..4"}},
 }
 
 
@@ -75,6 +75,8 @@ def c17(ctx, replay):
         "model checking: rates 1,2,4,8,16 with integer hz 0..40 chosen per frame, unbounded histories; random: rates "
         "44100/48000/96000 (and 3,5,6,7,12,24,48 for special points) with arbitrary finite non-negative hz",
         "noise: u64 is modelled as Z_4 in MC_Osc; the harness drives seeds 0, 1, 2^32-1, 2^32, 2^63, u64::MAX-1, u64::MAX and random ones",
+        "hz mode: the instrumented frequency signals optionally report is_exhausted() after k pulls while they keep "
+        "yielding their programmed (non-zero) frequencies, as from_iter(dev).offset_amp(base) does",
     ]
     rej, _ = pipeline(ctx, "C17", replay)
     ctx.add_rejections(rej)
@@ -82,11 +84,13 @@ def c17(ctx, replay):
 
 def c18(ctx, replay):
     ctx.assumptions += [
-        "zero-initialised ring of length 2*depth over Vec storage, depth 1..32; frame types [f64|f32|i16; 1|2]",
+        "zero-initialised ring of length 2*depth over Vec storage, depth 1..32; frame types [f64|f32|i16|i32; 1|2] "
+        "(i32 frames carry values with more than 24 significant bits)",
         "fractional positions j/16; the kernel's shape is not specified by the property and not judged",
         "linearity inputs are chosen so that a+b and 2^k*a are exact in the frame format (checked by the trace spec)",
         "superposition tolerance 4*depth*eps*peak is statistical head-room (observed <= 1e-15), not a worst-case rounding bound",
-        "integer frames stay below 1/8 full scale so that no tap sum overflows",
+        "integer frames stay below 1/8 full scale wherever a fractional position is interpolated, so that no tap sum "
+        "overflows; on the grid (ratio-1 converter runs, TLC's histories) i32 frames go up to full scale",
     ]
     rej, _ = pipeline(ctx, "C18", replay)
     ctx.add_rejections(rej)
@@ -100,6 +104,10 @@ def c20(ctx, replay):
         "chunk frames are compared bit for bit with mul_amp(frame, w) where w is the value observed from a stand-alone Window "
         "of the frame type's Float companion (no cosine is evaluated by the specification)",
         "only the first `bin` frames of a chunk are taken (Windowed is an infinite iterator)",
+        "the windower is advanced by next, nth(k), by_ref().skip(k).next() and by_ref().step_by(s); other iterator "
+        "adaptors are compositions of these",
+        "window functions evaluated directly (dasp_window::Window::window) on f64, f32 and i16 phases: Hann on [0, 1] "
+        "(+- 3 ulp), Rectangle on [-2, 3]; an i16 amplitude of 1 is full scale (32767)",
     ]
     rej, _ = pipeline(ctx, "C20", replay)
     ctx.add_rejections(rej)
